@@ -262,15 +262,8 @@ def run(ctx, res):
         has_kind = [bi for bi, t in b.calls() if any(n.endswith("io::error::Error::kind") for n in callee_names(t))]
         has_eq = [bi for bi, t in b.calls() if any("ErrorKind" in n and n.endswith("::eq") for n in callee_names(t))]
         # None / Some(Err) constructions
-        none_b = set()
-        someerr_b = set()
-        for bi, blk in enumerate(b.blocks):
-            for s in blk["s"]:
-                if s["k"] == "assign" and s["p"]["l"] == 0 and s["r"]["k"] == "agg" and s["r"].get("adt", "").endswith("option::Option"):
-                    if s["r"]["variant"] == "None":
-                        none_b.add(bi)
-                    elif s["r"]["variant"] == "Some":
-                        someerr_b.add(bi)
+        from an import option_return_blocks
+        none_b, someerr_b = option_return_blocks(b)
         if has_kind and has_eq and none_b and someerr_b:
             # the eq result's true edge must reach a None block, the false edge a Some(..) block
             ok = False
